@@ -756,6 +756,10 @@ pub fn generate(p: &mut Prng, seeds: &Seeds) -> Case {
             _ => cyclic_type_case(p),
         };
     }
+    // search mode after a broken obligation about literal decoding / error-span arithmetic: only that class
+    if std::env::var("C06_FOCUS").as_deref() == Ok("escapes") {
+        return escapes::random_case(p);
+    }
     match p.below(24) {
         20 => long_token_case(p),
         21 => cyclic_type_case(p),
